@@ -3,7 +3,7 @@ SRC = ['repo:src/String.cpp', 'repo:src/Memory.cpp', 'repo:src/Mutex.cpp', 'repo
 UNITS = [dict(
     name='loop', harness='harness/c14_loop.cpp', sources=SRC, native=False,
     defines={'quick': {'VF_NT': 3, 'VF_ACT': 4}, 'thorough': {'VF_NT': 3, 'VF_ACT': 7}},
-    entries=['timers', 'clients', 'accept_connect', 'interrupts', 'closed_timer'],
+    entries=['timers', 'clients', 'accept_connect', 'interrupts', 'closed_timer', 'zero_interval'],
     opts={'all': {'unwind': 64, 'max_instr': 1500000, 'preempt': 2}},
     split={'quick': 14, 'thorough': 16},
     budget={'quick': 285, 'thorough': 3000},
